@@ -37,13 +37,20 @@ def gen_cases(rng, n):
             # declared constants as interval bounds (with and without a unit)
             import copy
             phi = copy.deepcopy(phi)
-            tn = [q for q in subformulas(phi) if q["op"] in TIMED]
+            tn = list({id(q): q for q in subformulas(phi) if q["op"] in TIMED}.values())   # (shared nodes once)
             rng.shuffle(tn)
             for j, q in enumerate(tn[:2]):
                 which = rng.choice(["a", "b"])
+                other = "b" if which == "a" else "a"
                 nm = "kb%d" % (j + 1)
                 q[which + "t"] = nm
-                if rng.random() < 0.4:
+                variant = rng.random()
+                if variant < 0.3:
+                    # the constant has no unit of its own and inherits the unit written on the other bound
+                    q[other + "t"] = str(q[other] * 1000); q[other + "u"] = "ms"
+                    bconsts.append([nm, str(q[which] * 1000)])
+                    continue
+                if variant < 0.6:
                     q[which + "u"] = "s"
                     if which == "a" and rng.random() < 0.5:
                         q["bu"] = "s"
@@ -65,7 +72,9 @@ def gen_cases(rng, n):
                 if k_ in q:
                     q[k_] = as_written(q[k_])
             if p_["op"] in TIMED:
-                q["aw"] = [p_["a"], 1]; q["bw"] = [p_["b"], 1]; q["au"] = p_.get("au", ""); q["bu"] = p_.get("bu", "")
+                ms = "ms" in (p_.get("au", ""), p_.get("bu", ""))        # written in milliseconds (variant 1)
+                k_ = 1000 if ms else 1
+                q["aw"] = [p_["a"] * k_, 1]; q["bw"] = [p_["b"] * k_, 1]; q["au"] = p_.get("au", ""); q["bu"] = p_.get("bu", "")
             return q
         style = rng.choice(["add_sub_spec", "one_text"])
         declare_names = rng.random() < 0.5
